@@ -10,10 +10,13 @@ import time
 from . import derive, kanirun, registry
 from .derive import VERIF
 
-EVID_DIR = os.path.join(VERIF, "evidence")
-REPLAY_DIR = os.path.join(VERIF, "replay")
+# VERIF_OUT redirects evidence/replay/logs (used only by the development tool that runs a check
+# against a scratch worktree holding a seeded change; registered commands never set it).
+OUT = os.environ.get("VERIF_OUT", VERIF)
+EVID_DIR = os.path.join(OUT, "evidence")
+REPLAY_DIR = os.path.join(OUT, "replay")
 KNOWN = os.path.join(VERIF, "known_findings.json")
-LOG_DIR = os.path.join(VERIF, "logs")
+LOG_DIR = os.path.join(OUT, "logs")
 
 NCPU = os.cpu_count() or 4
 
@@ -75,6 +78,16 @@ def classify(rec):
         if st == "pass":
             return "vacuous"  # nothing panicked and marker unreachable: assumptions unsatisfiable
         return "inconclusive"
+    if rec.get("may_panic") and st == "fail" and rec["failed"] and not unwinding_only(rec):
+        # "valid result or failure" harness: library panics are an accepted way to fail;
+        # only the harness's own assertions (located in the injected module) count.
+        own = [c for c in rec["failed"] if "__verif_" in (c["location"] or "")]
+        rec["tolerated_panics"] = [c for c in rec["failed"] if c not in own]
+        if own:
+            rec["failed"] = own
+            return "fail"
+        bad = [c for c in rec["covers"] if c["status"] != "Satisfied"]
+        return "vacuous" if bad else "ok"
     if st == "pass":
         bad = [c for c in rec["covers"] if c["status"] != "Satisfied"]
         if bad:
@@ -108,6 +121,14 @@ def gen_playback_test(top, profile, h, log_path):
     tests = re.findall(r"```\n(.*?)```", p.stdout, re.S)
     tests = [t for t in tests if "concrete_playback_run" in t and "Check for `cover`" not in t]
     return tests
+
+
+def need_for(must_panic, may_panic):
+    if must_panic:
+        return MARKER
+    if may_panic:
+        return r"panicked at [^\n]*__verif_"
+    return None
 
 
 def nativeize(test_src):
@@ -164,7 +185,7 @@ def run_playback(profile, harness_file, support, tests, log_path, release=False,
             with open(log_path, "a") as fh:
                 fh.write("\n$ " + " ".join(cmd) + "\n" + p.stdout[-20000:])
             if re.search(r"test result: FAILED", p.stdout) and re.search(r"%s \.\.\. FAILED" % nm, p.stdout):
-                if need_text and need_text not in p.stdout:
+                if need_text and not re.search(need_text, p.stdout):
                     res[nm] = "passed"  # it panicked, but at the documented site, not at the marker
                 else:
                     res[nm] = "failed"
@@ -183,15 +204,15 @@ def replay_failure(prop, top, profile, h, rec, log_path):
     tests = gen_playback_test(top, profile, h, log_path)
     os.makedirs(os.path.join(REPLAY_DIR, prop), exist_ok=True)
     path = os.path.join(REPLAY_DIR, prop, h.name + ".replay.rs")
-    header = ("// replay for property %s harness %s profile %s\n// harness-file: %s\n// must-panic: %d\n// failed: %s\n"
-              % (prop, h.name, profile, os.path.relpath(h.file, VERIF), 1 if h.must_panic else 0,
+    header = ("// replay for property %s harness %s profile %s\n// harness-file: %s\n// must-panic: %d\n// may-panic: %d\n// failed: %s\n"
+              % (prop, h.name, profile, os.path.relpath(h.file, VERIF), 1 if h.must_panic else 0, 1 if h.may_panic else 0,
                  "; ".join("%s @ %s" % (c["description"], c["location"]) for c in rec["failed"])))
     with open(path, "w") as fh:
         fh.write(header + "\n".join(tests))
     if not tests:
         return None, path
     res = run_playback(profile, h.file, registry.support_files(profile), tests, log_path,
-                       need_text=MARKER if h.must_panic else None)
+                       need_text=need_for(h.must_panic, h.may_panic))
     if any(v == "failed" for v in res.values()):
         return True, path
     if all(v == "passed" for v in res.values()):
@@ -212,8 +233,9 @@ def replay_stored(path):
     os.makedirs(LOG_DIR, exist_ok=True)
     lp = os.path.join(LOG_DIR, "replay-%s.log" % hname)
     mp = re.search(r"// must-panic: 1", txt) is not None
+    yp = re.search(r"// may-panic: 1", txt) is not None
     res = run_playback(profile, os.path.join(VERIF, f.group(1)), registry.support_files(profile), tests, lp,
-                       need_text=MARKER if mp else None)
+                       need_text=need_for(mp, yp))
     log("replay result:", res)
     if any(v == "failed" for v in res.values()):
         log("VIOLATION property=%s replay=%s" % (prop, path))
@@ -267,6 +289,7 @@ def check(prop, tier, only=None, seed=0):
         th.join()
 
     violations, known_hits, inconclusive, oks = [], [], [], []
+    unreplayed = []
     all_recs = []
     replayed = 0
     try:
@@ -308,6 +331,14 @@ def check(prop, tier, only=None, seed=0):
                             known_hits.append((key, kf[key], rec))
                             rec["class"] = "known-finding"
                             continue
+                    max_rp = int(os.environ.get("VERIF_MAX_REPLAY", "2"))
+                    if len(violations) >= max_rp:
+                        # enough confirmed counterexamples for this run; this one is reported, not replayed
+                        log("harness %s FAILED: %s -- not replayed (%d violation(s) already confirmed natively)"
+                            % (h.name, descs[:4], len(violations)))
+                        rec["class"] = "fail-unreplayed"
+                        unreplayed.append(h.name)
+                        continue
                     log("harness %s FAILED: %s -- replaying natively" % (h.name, descs[:4]))
                     rp_log = os.path.join(LOG_DIR, "%s-replay-%s.log" % (prop, h.name))
                     ok, path = replay_failure(prop, tops[prof], prof, h, rec, rp_log)
